@@ -394,8 +394,16 @@ class BasinProxy:
 
     def __getitem__(self, feat):
         if feat not in self._features:
-            feat_obj = BasinProxyFeature(feat_obj=self.ds[feat],
-                                         basinmap=self.basinmap)
+            if feat == "trace":
+                # The trace feature is a dictionary-like object with
+                # one array-like entry for each fluorescence trace.
+                feat_obj = {}
+                for key in self.ds[feat].keys():
+                    feat_obj[key] = BasinProxyFeature(
+                        feat_obj=self.ds[feat][key], basinmap=self.basinmap)
+            else:
+                feat_obj = BasinProxyFeature(feat_obj=self.ds[feat],
+                                             basinmap=self.basinmap)
             self._features[feat] = feat_obj
         return self._features[feat]
 
